@@ -136,6 +136,7 @@ func (rg *rootGeneratorPipeline) generate(ctx context.Context, blocks <-chan str
 
 	go func() {
 		defer func() {
+			verifPoint("gen.close", 0, "")
 			close(rootc)
 			close(errc)
 		}()
@@ -153,14 +154,20 @@ func (rg *rootGeneratorPipeline) generate(ctx context.Context, blocks <-chan str
 
 func (rg *rootGeneratorPipeline) worker(ctx context.Context, wg *sync.WaitGroup, blocks <-chan string, rootc chan<- *Node, errc chan<- error) {
 	defer wg.Done()
+	vid := verifStart("gen")
+	defer verifPoint("gen.exit", vid, "")
 	for {
+		verifPoint("gen.recv.pre", vid, "")
 		select {
 		case <-ctx.Done():
+			verifPoint("gen.recv.ctx", vid, "")
 			return
 		case block, ok := <-blocks:
 			if !ok {
+				verifPoint("gen.recv.closed", vid, "")
 				return
 			}
+			verifPoint("gen.recv.post", vid, block)
 
 			var (
 				sc      = bufio.NewScanner(strings.NewReader(block))
@@ -171,7 +178,9 @@ func (rg *rootGeneratorPipeline) worker(ctx context.Context, wg *sync.WaitGroup,
 			for sc.Scan() {
 				currentNode, err := rg.nodeGenerator.generate(sc.Text(), counter.next())
 				if err != nil {
+					verifPoint("gen.errsend.pre", vid, block)
 					errc <- err
+					verifPoint("gen.errsend.post", vid, block)
 					return
 				}
 
@@ -185,27 +194,37 @@ func (rg *rootGeneratorPipeline) worker(ctx context.Context, wg *sync.WaitGroup,
 				}
 
 				if nodes == nil {
+					verifPoint("gen.errsend.pre", vid, block)
 					errc <- errNilStack
+					verifPoint("gen.errsend.post", vid, block)
 					return
 				}
 
 				if !nodes.dfs(currentNode) {
+					verifPoint("gen.errsend.pre", vid, block)
 					errc <- &inputFormatError{row: sc.Text()}
+					verifPoint("gen.errsend.post", vid, block)
 					return
 				}
 			}
 			if err := sc.Err(); err != nil {
+				verifPoint("gen.errsend.pre", vid, block)
 				errc <- err
+				verifPoint("gen.errsend.post", vid, block)
 				return
 			}
 			if root == nil {
 				// blank lines only (empty input, lines before the first root): nothing to forward
+				verifPoint("gen.skip", vid, block)
 				continue
 			}
+			verifPoint("gen.send.pre", vid, block)
 			select {
 			case <-ctx.Done():
+				verifPoint("gen.send.ctx", vid, block)
 				return
 			case rootc <- root:
+				verifPoint("gen.send.post", vid, block)
 			}
 		}
 	}
